@@ -271,6 +271,32 @@ func (t *tr) expr(e ast.Expr) string {
 			}
 		}
 	case *ast.CallExpr:
+		if id, ok := x.Fun.(*ast.Ident); ok && id.Name == "len" && len(x.Args) == 1 {
+			if a, ok := x.Args[0].(*ast.Ident); ok {
+				return fmt.Sprintf("(.len %d)", t.st.id(a.Name))
+			}
+		}
+		// a call `F(a, b)` of a named function on plain identifiers with an integer result: the
+		// pseudo-variable "F(a,b)" (its value is supplied by the obligation from F's own theorem)
+		if id, ok := x.Fun.(*ast.Ident); ok {
+			if tv, ok := t.u.info.Types[x.Fun]; ok && !tv.IsType() && !tv.IsBuiltin() {
+				if _, ok := tyOf(t.u.info.TypeOf(x)); ok {
+					var args []string
+					plain := true
+					for _, a := range x.Args {
+						ai, ok := a.(*ast.Ident)
+						if !ok {
+							plain = false
+							break
+						}
+						args = append(args, ai.Name)
+					}
+					if plain {
+						return fmt.Sprintf("(.var %d)", t.st.id(id.Name+"("+strings.Join(args, ",")+")"))
+					}
+				}
+			}
+		}
 		if len(x.Args) == 1 {
 			if tv, ok := t.u.info.Types[x.Fun]; ok && tv.IsType() {
 				if ty, ok := tyOf(tv.Type); ok {
@@ -306,6 +332,15 @@ func (t *tr) cond(e ast.Expr) string {
 		case token.LOR:
 			return "(.or " + t.cond(x.X) + " " + t.cond(x.Y) + ")"
 		case token.LSS, token.LEQ, token.GTR, token.GEQ, token.EQL, token.NEQ:
+			if x.Op == token.EQL {
+				if a, ok := x.X.(*ast.Ident); ok {
+					if n, ok := x.Y.(*ast.Ident); ok && n.Name == "nil" {
+						if _, isSlice := t.u.info.TypeOf(a).Underlying().(*types.Slice); isSlice {
+							return fmt.Sprintf("(.isNil %d)", t.st.id(a.Name))
+						}
+					}
+				}
+			}
 			if !intOperands() {
 				break
 			}
@@ -417,9 +452,6 @@ func (t *tr) stmts(list []ast.Stmt, guard string, skip func(ast.Stmt) bool) []st
 			}
 		case *ast.AssignStmt:
 			if len(x.Lhs) == 1 && len(x.Rhs) == 1 {
-				if isLenCall(x.Rhs[0]) {
-					continue // `sz := len(bytes)`: the loop bound, supplied by the obligation
-				}
 				switch l := x.Lhs[0].(type) {
 				case *ast.Ident:
 					switch x.Tok {
@@ -524,6 +556,52 @@ func (t *tr) switchStmt(x *ast.SwitchStmt, guard string, skip func(ast.Stmt) boo
 	if mentions(x.Tag, assignedNames(all)) {
 		return nil, false
 	}
+	// shape 3: `switch tag { case c1: …; return e1  case c2: …; return e2  default: …; return e0 }`
+	// (no fallthrough, every clause ends in a return): the statements of case k are guarded by tag == ck,
+	// the default clause comes last unguarded (every matching case has returned before it)
+	{
+		allRet, anyFall := true, false
+		for _, c := range x.Body.List {
+			body := c.(*ast.CaseClause).Body
+			if len(body) == 0 {
+				allRet = false
+				break
+			}
+			switch l := body[len(body)-1].(type) {
+			case *ast.ReturnStmt:
+			case *ast.BranchStmt:
+				if l.Tok == token.FALLTHROUGH {
+					anyFall = true
+				}
+				allRet = false
+			default:
+				allRet = false
+			}
+		}
+		if allRet && !anyFall {
+			var deflt *ast.CaseClause
+			for _, c := range x.Body.List {
+				cc := c.(*ast.CaseClause)
+				if cc.List == nil {
+					deflt = cc
+					continue
+				}
+				if len(cc.List) != 1 {
+					return nil, false
+				}
+				v, ok := constInt(t.u.info.Types[cc.List[0]])
+				if !ok {
+					return nil, false
+				}
+				g := and("(.oneOf " + t.expr(x.Tag) + " [" + leanInt(v) + "])")
+				out = append(out, t.stmts(cc.Body, g, skip)...)
+			}
+			if deflt != nil {
+				out = append(out, t.stmts(deflt.Body, guard, skip)...)
+			}
+			return out, true
+		}
+	}
 	var labels []string
 	n := len(x.Body.List)
 	for i, c := range x.Body.List {
@@ -607,10 +685,18 @@ func (e *emitter) fn(u *unit, name, leanName string) {
 func firstFor(fd *ast.FuncDecl) (*ast.ForStmt, int, []ast.Stmt) {
 	list := fd.Body.List
 	// Hash64V2 wraps everything in `if sz := len(bytes); sz == 0 { return 0 } else { … }`
+	// `if init; c { return v } else { rest }`  is  `init; if c { return v }; rest`
 	if len(list) == 1 {
-		if is, ok := list[0].(*ast.IfStmt); ok && is.Else != nil {
-			if eb, ok := is.Else.(*ast.BlockStmt); ok {
-				list = eb.List
+		if is, ok := list[0].(*ast.IfStmt); ok && is.Else != nil && len(is.Body.List) == 1 {
+			if _, isRet := is.Body.List[0].(*ast.ReturnStmt); isRet {
+				if eb, ok := is.Else.(*ast.BlockStmt); ok {
+					var nl []ast.Stmt
+					if is.Init != nil {
+						nl = append(nl, is.Init)
+					}
+					nl = append(nl, &ast.IfStmt{If: is.If, Cond: is.Cond, Body: is.Body})
+					list = append(nl, eb.List...)
+				}
 			}
 		}
 	}
@@ -737,7 +823,7 @@ func (e *emitter) loopFn(u *unit, name, leanName string, wantPre bool) {
 		// constant initial value of the first carried variable (the register), if it has one
 		if len(carriedNames) > 0 {
 			v, ok := u.localConst(fd, carriedNames[0])
-			e.optConst(leanName+".init", v, ok, "Int")
+			e.optConst(leanName+".regInit", v, ok, "Int")
 		}
 	}
 	// the loop header as text (compared literally by the obligations; its meaning is `GoSem.forLoop`)
@@ -774,19 +860,14 @@ func (e *emitter) loopFn(u *unit, name, leanName string, wantPre bool) {
 		return subst(b.String(), 0)
 	}
 
-	if wantPre {
-		fmt.Fprintf(&e.w, "def %s.pre : List GoSem.Stmt := %s\n", leanName, block(t.stmts(list[:at], "", nil)))
-	}
-	if loop.Cond != nil {
-		// the loop condition is emitted when it compares integers (to_str); index loops `i < sz` are
-		// supplied by the obligations
-		if be, ok := loop.Cond.(*ast.BinaryExpr); ok {
-			if _, ok := be.Y.(*ast.Ident); !ok {
-				if _, isCall := be.Y.(*ast.CallExpr); !isCall {
-					fmt.Fprintf(&e.w, "def %s.cond : GoSem.Cond := %s\n", leanName, t.cond(loop.Cond))
-				}
-			}
-		}
+	_ = wantPre
+	fmt.Fprintf(&e.w, "def %s.pre : List GoSem.Stmt := %s\n", leanName, block(t.stmts(list[:at], "", nil)))
+	if loop.Init != nil && loop.Cond != nil && loop.Post != nil {
+		fmt.Fprintf(&e.w, "def %s.init : List GoSem.Stmt := %s\n", leanName, block(t.stmts([]ast.Stmt{loop.Init}, "", nil)))
+		fmt.Fprintf(&e.w, "def %s.cond : GoSem.Cond := %s\n", leanName, t.cond(loop.Cond))
+		fmt.Fprintf(&e.w, "def %s.post : List GoSem.Stmt := %s\n", leanName, block(t.stmts([]ast.Stmt{loop.Post}, "", nil)))
+	} else {
+		fmt.Fprintf(&e.w, "def %s.init : List GoSem.Stmt := [.unknown 0]\ndef %s.cond : GoSem.Cond := .unknown 0\ndef %s.post : List GoSem.Stmt := [.unknown 0]\n", leanName, leanName, leanName)
 	}
 	fmt.Fprintf(&e.w, "def %s.body : List GoSem.Stmt := %s\n", leanName, block(t.stmts(loop.Body.List, "", nil)))
 	fmt.Fprintf(&e.w, "def %s.after : List GoSem.Stmt := %s\n", leanName, block(t.stmts(list[at+1:], "", nil)))
@@ -964,6 +1045,276 @@ func (e *emitter) wrapper(u *unit, name string) {
 	}
 }
 
+// ---------------------------------------------------------------- string-level trees (hexa32 top level)
+
+func (t *tr) sexpr(e ast.Expr) string {
+	switch x := e.(type) {
+	case *ast.ParenExpr:
+		return t.sexpr(x.X)
+	case *ast.BasicLit:
+		if x.Kind == token.STRING {
+			if v, err := strconv.Unquote(x.Value); err == nil {
+				return "(.lit " + leanStr(v) + ")"
+			}
+		}
+	case *ast.BinaryExpr:
+		if x.Op == token.ADD {
+			return "(.cat " + t.sexpr(x.X) + " " + t.sexpr(x.Y) + ")"
+		}
+	case *ast.CallExpr:
+		if len(x.Args) == 1 {
+			if id, ok := x.Fun.(*ast.Ident); ok && id.Name == "to_str" {
+				return "(.toStr " + t.expr(x.Args[0]) + ")"
+			}
+			if sel, ok := x.Fun.(*ast.SelectorExpr); ok && sel.Sel.Name == "Itoa" {
+				if p, ok := sel.X.(*ast.Ident); ok && p.Name == "strconv" {
+					return "(.itoa " + t.expr(x.Args[0]) + ")"
+				}
+			}
+		}
+	}
+	return unknown("GoSem.SExpr", e)
+}
+
+// a function body made of bool aliases, if/else and returns of strings, as a decision tree
+func (t *tr) stree(list []ast.Stmt, alias map[string]ast.Expr) string {
+	if len(list) == 0 {
+		unknownCount++
+		return fmt.Sprintf("(GoSem.STree.unknown %d)", unknownCount)
+	}
+	switch x := list[0].(type) {
+	case *ast.AssignStmt:
+		if x.Tok == token.DEFINE && len(x.Lhs) == 1 && len(x.Rhs) == 1 {
+			if id, ok := x.Lhs[0].(*ast.Ident); ok {
+				if b, ok := t.u.info.TypeOf(x.Rhs[0]).Underlying().(*types.Basic); ok && b.Kind() == types.Bool {
+					alias[id.Name] = x.Rhs[0]
+					return t.stree(list[1:], alias)
+				}
+			}
+		}
+	case *ast.ReturnStmt:
+		if len(x.Results) == 1 {
+			return "(.ret " + t.sexpr(x.Results[0]) + ")"
+		}
+	case *ast.IfStmt:
+		if x.Init == nil {
+			c := x.Cond
+			if id, ok := c.(*ast.Ident); ok {
+				if a, ok := alias[id.Name]; ok {
+					c = a
+				}
+			}
+			thenT := t.stree(x.Body.List, alias)
+			var elseT string
+			switch el := x.Else.(type) {
+			case nil:
+				elseT = t.stree(list[1:], alias)
+			case *ast.BlockStmt:
+				elseT = t.stree(el.List, alias)
+			default:
+				elseT = unknown("GoSem.STree", x)
+			}
+			return "(.ite " + t.cond(c) + " " + thenT + " " + elseT + ")"
+		}
+	}
+	return unknown("GoSem.STree", list[0])
+}
+
+func (e *emitter) encTree(u *unit, name, leanName string) {
+	fd := u.fn(name)
+	if fd == nil {
+		fmt.Fprintf(&e.w, "def %s : GoSem.STree := .unknown 0\n\n", leanName)
+		return
+	}
+	st := newSymtab()
+	paramSyms(fd, st, u)
+	t := &tr{u, st}
+	fmt.Fprintf(&e.w, "def %s : GoSem.STree :=\n  %s\n", leanName, t.stree(fd.Body.List, map[string]ast.Expr{}))
+	e.syms(leanName, st)
+}
+
+// ToLong32: decisions on the text (empty, first byte, equal to a literal) and what is returned
+func (e *emitter) decTree(u *unit, name, leanName string) {
+	fd := u.fn(name)
+	bad := func(n ast.Node) string { return unknown("GoSem.DTree", n) }
+	if fd == nil || len(fd.Type.Params.List) != 1 || len(fd.Type.Params.List[0].Names) != 1 {
+		fmt.Fprintf(&e.w, "def %s : GoSem.DTree := .unknown 0\n\n", leanName)
+		return
+	}
+	str := fd.Type.Params.List[0].Names[0].Name
+	isStr := func(x ast.Expr) bool { id, ok := x.(*ast.Ident); return ok && id.Name == str }
+	strLit := func(x ast.Expr) (string, bool) {
+		if bl, ok := x.(*ast.BasicLit); ok && bl.Kind == token.STRING {
+			v, err := strconv.Unquote(bl.Value)
+			return v, err == nil
+		}
+		return "", false
+	}
+	// to_long(str[1:len(str)]) / to_long(str[1:])
+	isToLongTail := func(x ast.Expr) bool {
+		c, ok := x.(*ast.CallExpr)
+		if !ok || len(c.Args) != 1 {
+			return false
+		}
+		if id, ok := c.Fun.(*ast.Ident); !ok || id.Name != "to_long" {
+			return false
+		}
+		sl, ok := c.Args[0].(*ast.SliceExpr)
+		if !ok || !isStr(sl.X) || sl.Slice3 {
+			return false
+		}
+		if v, ok := constInt(u.info.Types[sl.Low]); !ok || v.Int64() != 1 {
+			return false
+		}
+		if sl.High != nil {
+			hc, ok := sl.High.(*ast.CallExpr)
+			if !ok || !isLenCall(hc) || len(hc.Args) != 1 || !isStr(hc.Args[0]) {
+				return false
+			}
+		}
+		return true
+	}
+	ret := func(x ast.Expr) string {
+		if v, ok := constInt(u.info.Types[x]); ok {
+			return "(.ret (.const " + leanInt(v) + "))"
+		}
+		if isToLongTail(x) {
+			return "(.ret (.mulToLongTail 1))"
+		}
+		if be, ok := x.(*ast.BinaryExpr); ok && be.Op == token.MUL {
+			if v, ok := constInt(u.info.Types[be.X]); ok && isToLongTail(be.Y) {
+				return "(.ret (.mulToLongTail " + leanInt(v) + "))"
+			}
+			if v, ok := constInt(u.info.Types[be.Y]); ok && isToLongTail(be.X) {
+				return "(.ret (.mulToLongTail " + leanInt(v) + "))"
+			}
+		}
+		return bad(x)
+	}
+	var tree func(list []ast.Stmt) string
+	tree = func(list []ast.Stmt) string {
+		if len(list) == 0 {
+			unknownCount++
+			return fmt.Sprintf("(GoSem.DTree.unknown %d)", unknownCount)
+		}
+		switch x := list[0].(type) {
+		case *ast.ReturnStmt:
+			if len(x.Results) == 1 {
+				return ret(x.Results[0])
+			}
+		case *ast.IfStmt:
+			if x.Init == nil {
+				c := ""
+				if be, ok := x.Cond.(*ast.BinaryExpr); ok && be.Op == token.EQL {
+					a, b := be.X, be.Y
+					if isStr(b) {
+						a, b = b, a
+					}
+					if isStr(a) {
+						if v, ok := strLit(b); ok {
+							if v == "" {
+								c = ".isEmpty"
+							} else {
+								c = "(.eqLit " + leanStr(v) + ")"
+							}
+						}
+					}
+				}
+				if c == "" {
+					return bad(x)
+				}
+				thenT := tree(x.Body.List)
+				var elseT string
+				switch el := x.Else.(type) {
+				case nil:
+					elseT = tree(list[1:])
+				case *ast.BlockStmt:
+					elseT = tree(el.List)
+				default:
+					elseT = bad(x)
+				}
+				return "(.ite " + c + " " + thenT + " " + elseT + ")"
+			}
+		case *ast.SwitchStmt:
+			// switch str[0] { case C1: …  case C2: …  default: … }  (no fallthrough; must be the last statement)
+			ie, ok := x.Tag.(*ast.IndexExpr)
+			if !ok || x.Init != nil || !isStr(ie.X) || len(list) != 1 {
+				return bad(x)
+			}
+			if v, ok := constInt(u.info.Types[ie.Index]); !ok || v.Sign() != 0 {
+				return bad(x)
+			}
+			deflt := ""
+			type arm struct{ lab, body string }
+			var arms []arm
+			for _, c := range x.Body.List {
+				cc := c.(*ast.CaseClause)
+				for _, s := range cc.Body {
+					if bs, ok := s.(*ast.BranchStmt); ok && bs.Tok == token.FALLTHROUGH {
+						return bad(x)
+					}
+				}
+				if cc.List == nil {
+					deflt = tree(cc.Body)
+					continue
+				}
+				if len(cc.List) != 1 {
+					return bad(x)
+				}
+				v, ok := constInt(u.info.Types[cc.List[0]])
+				if !ok {
+					return bad(x)
+				}
+				arms = append(arms, arm{leanInt(v), tree(cc.Body)})
+			}
+			if deflt == "" {
+				return bad(x)
+			}
+			out := deflt
+			for i := len(arms) - 1; i >= 0; i-- {
+				out = "(.ite (.firstIs " + arms[i].lab + ") " + arms[i].body + " " + out + ")"
+			}
+			return out
+		case *ast.AssignStmt:
+			// i, err := strconv.Atoi(str); if err != nil { return D }; return int64(i)
+			if x.Tok == token.DEFINE && len(x.Lhs) == 2 && len(x.Rhs) == 1 && len(list) == 3 {
+				iv, ok1 := x.Lhs[0].(*ast.Ident)
+				ev, ok2 := x.Lhs[1].(*ast.Ident)
+				c, ok3 := x.Rhs[0].(*ast.CallExpr)
+				if ok1 && ok2 && ok3 && len(c.Args) == 1 && isStr(c.Args[0]) {
+					if sel, ok := c.Fun.(*ast.SelectorExpr); ok && sel.Sel.Name == "Atoi" {
+						is, okA := list[1].(*ast.IfStmt)
+						rs, okB := list[2].(*ast.ReturnStmt)
+						if okA && okB && is.Else == nil && is.Init == nil && len(is.Body.List) == 1 && len(rs.Results) == 1 {
+							be, okC := is.Cond.(*ast.BinaryExpr)
+							r1, okD := is.Body.List[0].(*ast.ReturnStmt)
+							if okC && okD && be.Op == token.NEQ && len(r1.Results) == 1 {
+								l, okE := be.X.(*ast.Ident)
+								n, okF := be.Y.(*ast.Ident)
+								d, okG := constInt(u.info.Types[r1.Results[0]])
+								// return int64(i)
+								good := false
+								if cv, ok := rs.Results[0].(*ast.CallExpr); ok && len(cv.Args) == 1 {
+									if ty, ok := cv.Fun.(*ast.Ident); ok && ty.Name == "int64" {
+										if a, ok := cv.Args[0].(*ast.Ident); ok && a.Name == iv.Name {
+											good = true
+										}
+									}
+								}
+								if okE && okF && okG && l.Name == ev.Name && n.Name == "nil" && good {
+									return "(.ret (.atoiOr " + leanInt(d) + "))"
+								}
+							}
+						}
+					}
+				}
+			}
+		}
+		return bad(list[0])
+	}
+	fmt.Fprintf(&e.w, "def %s : GoSem.DTree :=\n  %s\n\n", leanName, tree(fd.Body.List))
+}
+
 // ---------------------------------------------------------------- iputil shape
 
 func (e *emitter) ipShape(repo string) {
@@ -1104,6 +1455,7 @@ func main() {
 	for _, fn := range []string{"Hash", "Hash64", "Hash64v2", "Hash64V2"} {
 		e.loopFn(hu, fn, "loop_"+fn, false)
 	}
+	e.fn(hu, "HashAddr", "fn_HashAddr")
 	e.fn(hu, "ToInt", "fn_ToInt")
 	e.fn(hu, "ToLong", "fn_ToLong")
 	for _, fn := range []string{"HashStr", "Hash64Str", "Hash64StrV2", "GetLongHash"} {
@@ -1126,6 +1478,8 @@ func main() {
 	fmt.Fprintf(&e.w, "def toLong32Texts : List String := [%s]\n\n", quoteAll(stringLits(xu.fn("ToLong32"))))
 	e.toStr(xu)
 	e.toLong(xu)
+	e.encTree(xu, "ToString32", "tree_ToString32")
+	e.decTree(xu, "ToLong32", "tree_ToLong32")
 
 	// ---- util/hll
 	mu := load(*repo, "util/hll/MurmurHash.go", nil)
@@ -1223,6 +1577,9 @@ func (e *emitter) toLong(u *unit) {
 	var findc *ast.FuncLit
 	findcName := ""
 	skipPre := func(s ast.Stmt) bool {
+		if as, ok := s.(*ast.AssignStmt); ok && len(as.Rhs) == 1 && isLenCall(as.Rhs[0]) {
+			return true // `sz := len(s)`: the loop over the characters is `GoBridge.goToLong`
+		}
 		if as, ok := s.(*ast.AssignStmt); ok && len(as.Rhs) == 1 {
 			if fl, ok := as.Rhs[0].(*ast.FuncLit); ok {
 				findc = fl
